@@ -31,8 +31,8 @@ Non-trivial = at least 2 cipher blocks (chaining exercised); distinct by hash of
 
 fn parts(t: Tier) -> Vec<Part> {
     let (a, b) = match t {
-        Tier::Quick => (200_000, 250_000),
-        Tier::Thorough => (4_000_000, 5_000_000),
+        Tier::Quick => (600_000, 750_000),
+        Tier::Thorough => (8_000_000, 10_000_000),
     };
     vec![tape("forward", a, 1500), tape("backward", b, 500)]
 }
